@@ -119,7 +119,7 @@ HOSTS = ["%s", "x%s", "%sy", "(?=%s)", "(?<!q)%s", "(a)?%s\\1?", "(?>%s)z", "(?:
 
 def run_c17(tier, seed, replay=None):
     res = core.Result("C17", tier, seed)
-    obligations, closed, log = core.coq_property("C17", ["C17_escape_borrow", "C17_quoted_shape", "C17_specials_cover_parser", "C17_parse_escape"])
+    obligations, closed, log = core.coq_property("C17", ["C17_escape_borrow", "C17_quoted_shape", "C17_specials_cover_parser", "C17_parse_escape", "C17_lits_match", "C17_escape_is_find"])
     proof_ok = all([res.oblige(n, ok) for n, ok in obligations])
     core.build_ocaml()
     core.build_harness()
